@@ -20,8 +20,8 @@ def check(pid, text, technique, design_ref):
 check("C17",
       "Theorems (Lean, all v<2^64 / all vectors / all names): NUMBER write→read round trip, ≤9 bytes, py7zr reader = "
       "spec decoder on every conforming encoding, spec decoder reads py7zr's output; boolean vectors of every length "
-      "with/without all-defined shortcut; UTF-16 names of any scalar values; fixed-width fields. The model functions "
-      "are tied to archiveinfo.py by exhaustive/structured correspondence streams (num, bools, utf16, files-info "
+      "with/without all-defined shortcut; UTF-16 names of any scalar values; fixed-width fields; CRC lists of any length (crcs_roundtrip, crcs_short_refused). The model functions "
+      "are tied to archiveinfo.py by exhaustive/structured correspondence streams (num, bools, utf16, crcs, files-info "
       "vectors); the round-trip is also evaluated directly on the implementation.",
       "Lean 4 proof over hand-written model + differential correspondence (line protocol) + direct round-trip exploration",
       "DESIGN.md §4 C17")
